@@ -104,6 +104,11 @@ func NewIPPool(network string, gateway string) (*IPPool, error) {
 
 // Allocate allocates an IP for a session
 func (p *IPPool) Allocate(sessionID string) net.IP {
+	// A session that already holds an address keeps it (a repeated
+	// authentication must not take a second address and leak the first).
+	if ip, ok := p.allocated[sessionID]; ok {
+		return ip
+	}
 	if len(p.available) == 0 {
 		return nil
 	}
